@@ -55,6 +55,22 @@ def check(tier):
         rep.obligation("translate sources", False)
         rep.violation("translator", {"theorem": "generated tables cannot be regenerated", "detail": str(e)}, no_input=True)
         return rep.finish()
+    # the names the symbol table gives to punctuation terminals must tell them apart: two literals with one name share their
+    # synthesised non-terminals.  (Known finding D2 is about names shared with USER identifiers, which this table cannot avoid.)
+    from . import regexfam as RF
+    tn = {k: v for k, v in RF.translate_misc().get("terminal_names", {}).items()}
+    byname = {}
+    for k, v in sorted(tn.items()):
+        byname.setdefault(v, []).append(k)
+    clashes = [ks for ks in byname.values() if len(ks) > 1]
+    rep.obligation("the table of terminal names is one-to-one (%d entries)" % len(tn), not clashes)
+    for ks in clashes[:2]:
+        lit = lambda x: json.dumps(x)
+        text = 'grammar t; start = [%s] "x" [%s];\n' % (lit(ks[0]), lit(ks[1]))
+        r = C.hook_batch([{"op": "spec", "text": text}])[0]
+        wit = language_witness(text, r["spec"]["productions"]) if r.get("outcome") == "ok" and r.get("spec") else None
+        rep.failure("terminal-names", {"terminal-names"}, dict({"input_text": text, "literals": ks, "shared_name": tn[ks[0]],
+                    "why": "two different literals get the same name, hence the same synthesised non-terminals"}, **(wit or {})), no_input=wit is None)
     ok, log = C.coq_make(["theories/Props/C01.vo"])
     for t in ["translation_preserves_language", "model_preserves_language", "premise_holds_somewhere", "name_collision_refuted"]:
         rep.obligation("Props/C01.v: " + t, ok)
